@@ -3,7 +3,13 @@
 package wallet
 
 import (
+	"time"
+
 	"github.com/btcsuite/btcd/btcutil"
+	"github.com/btcsuite/btcd/btcutil/psbt"
+	"github.com/btcsuite/btcd/txscript"
+	"github.com/btcsuite/btcd/wire"
+	"github.com/btcsuite/btcwallet/wtxmgr"
 	"github.com/btcsuite/btcwallet/waddrmgr"
 	"github.com/btcsuite/btcwallet/walletdb"
 
@@ -25,10 +31,61 @@ func (ww *zzWalletWorld) issue(op int) (btcutil.Address, bool, error) {
 	case 1:
 		a, err := ww.w.NewChangeAddress(0, scope)
 		return a, true, err
-	default:
+	case 2:
 		a, err := ww.w.CurrentAddress(0, scope)
 		return a, false, err // not necessarily a new address
+	case 3:
+		// a transaction that needs change (authored and committed on a
+		// watching-only wallet, so nothing is signed)
+		out := wire.NewTxOut(100000, []byte{0x00, 0x14, 7, 7, 7, 7, 7, 7, 7, 7, 7, 7, 7, 7, 7, 7, 7, 7, 7, 7, 7, 7})
+		atx, err := ww.w.txToOutputs([]*wire.TxOut{out}, &scope, &scope, 0, 1, 2000, CoinSelectionLargest, false, nil, nil)
+		if err != nil {
+			return nil, true, err
+		}
+		if atx.ChangeIndex < 0 {
+			return nil, true, nil
+		}
+		return ww.addrOf(atx.Tx.TxOut[atx.ChangeIndex].PkScript), true, nil
+	default:
+		// PSBT funding with a caller-supplied input that leaves change
+		tx := wire.NewMsgTx(2)
+		tx.AddTxIn(wire.NewTxIn(&ww.coins9[1], nil, nil))
+		tx.AddTxOut(wire.NewTxOut(100000, []byte{0x00, 0x14, 8, 8, 8, 8, 8, 8, 8, 8, 8, 8, 8, 8, 8, 8, 8, 8, 8, 8, 8, 8}))
+		packet := &psbt.Packet{UnsignedTx: tx, Inputs: make([]psbt.PInput, 1), Outputs: make([]psbt.POutput, 1)}
+		idx, err := ww.w.FundPsbt(packet, &scope, 1, 0, 2000, CoinSelectionLargest)
+		if err != nil {
+			return nil, true, err
+		}
+		if idx < 0 {
+			return nil, true, nil
+		}
+		return ww.addrOf(packet.UnsignedTx.TxOut[idx].PkScript), true, nil
 	}
+}
+
+func (ww *zzWalletWorld) addrOf(pkScript []byte) btcutil.Address {
+	_, addrs, _, err := txscript.ExtractPkScriptAddrs(pkScript, ww.params)
+	zzW(err)
+	if len(addrs) != 1 {
+		panic("harness: change script with " + string(rune('0'+len(addrs))) + " addresses")
+	}
+	return addrs[0]
+}
+
+// fund9 gives the wallet two confirmed coins and makes it watching-only.
+func (ww *zzWalletWorld) fund9() {
+	for k := 0; k < 2; k++ {
+		a := ww.newAddress(waddrmgr.KeyScopeBIP0084, false)
+		f := zzPayTo(a, 400000+int64(k)*1000, byte(20+k))
+		rec, err := wtxmgr.NewTxRecordFromMsgTx(f, time.Unix(1600000000, 0))
+		zzW(err)
+		m := ww.chain.meta(ww.chain.blocks[1])
+		zzW(walletdb.Update(ww.db, func(tx walletdb.ReadWriteTx) error { return ww.w.addRelevantTx(tx, rec, &m) }))
+		ww.coins9 = append(ww.coins9, wire.OutPoint{Hash: f.TxHash(), Index: 0})
+	}
+	zzW(walletdb.Update(ww.db, func(tx walletdb.ReadWriteTx) error {
+		return ww.w.Manager.ConvertToWatchingOnly(tx.ReadWriteBucket(waddrmgrNamespaceKey))
+	}))
 }
 
 func zzC09(bound int, nOps int) {
@@ -36,7 +93,13 @@ func zzC09(bound int, nOps int) {
 	verifrt.PreemptionBound(bound)
 	opA := verifrt.Choice(nOps, "op-a")
 	opB := verifrt.Choice(nOps, "op-b")
-	names := []string{"NewAddress", "NewChangeAddress", "CurrentAddress"}
+	names := []string{"NewAddress", "NewChangeAddress", "CurrentAddress", "txToOutputs", "FundPsbt"}
+	baseExt := uint32(0)
+	if opA >= 3 || opB >= 3 {
+		ww.fund9()
+		baseExt = 2 // the two funding addresses
+		verifrt.Reach("spending-caller")
+	}
 	verifrt.Note(names[opA] + " || " + names[opB])
 	var (
 		addrA, addrB btcutil.Address
@@ -52,6 +115,10 @@ func zzC09(bound int, nOps int) {
 	<-done
 	verifrt.Assert(errA == nil && errB == nil, "c09-calls-succeed")
 	if errA != nil || errB != nil {
+		return
+	}
+	if addrA == nil || addrB == nil {
+		verifrt.Assert(false, "c09-spending-call-produced-change")
 		return
 	}
 	if newA && newB {
@@ -71,12 +138,12 @@ func zzC09(bound int, nOps int) {
 		fp, err := fsm.AccountProperties(ns, 0)
 		zzW(err)
 		verifrt.Assert(rp.ExternalKeyCount == fp.ExternalKeyCount && rp.InternalKeyCount == fp.InternalKeyCount, "c09-database-agrees-with-memory")
-		wantExt, wantInt := uint32(0), uint32(0)
+		wantExt, wantInt := baseExt, uint32(0)
 		for _, op := range []int{opA, opB} {
 			switch op {
 			case 0:
 				wantExt++
-			case 1:
+			case 1, 3, 4:
 				wantInt++
 			}
 		}
@@ -103,3 +170,5 @@ func ZzC09B1()     { zzC09(1, 2) }
 func ZzC09B1All()  { zzC09(1, 3) }
 func ZzC09B2()     { zzC09(2, 2) }
 func ZzC09B2All()  { zzC09(2, 3) }
+func ZzC09B1Five() { zzC09(1, 5) }
+func ZzC09B2Five() { zzC09(2, 5) }
